@@ -3,6 +3,7 @@ import SockModel.Model.TlsLemmas
 import SockModel.Model.HsLemmas
 import SockModel.Model.TlsBudget
 import SockModel.Model.TlsLogLemmas
+import SockModel.Model.TlsShutdown
 import SockModel.Spec.C18
 /-!
 # C18  TLS sockets encrypt, need a TLS peer, and always complete the handshake
@@ -1909,3 +1910,60 @@ theorem handshake_completes_async_endpoint (C : Cfg) (hC : 1 < C.stepsMax) (P : 
   C18Hs.handshake_completes_async_endpoint C hC P u dc ds hdc hds rx hrx segs q hq hfed w l hok hf j hj
 
 end SockModel.Hs
+
+
+/-! ## "after which ... C15 hold unchanged": the orderly close of a TLS socket reads what the peer has sent  (DESIGN.md §0.22)
+
+`Shutdown()` is what the destructor runs.  Closing a TCP descriptor with unread input makes the kernel answer with a reset
+and discard what is still queued for sending - bytes earlier `Send` calls reported as sent (C15: "the complete stream for an
+orderly close").  So whenever the first `SSL_shutdown` does not report both alerts as exchanged - in particular when it FAILS
+because the alert cannot be written through a congested connection - the input has to be read before the descriptor goes. -/
+namespace SockModel.Tls
+open SockModel.Net
+
+variable {σ ω : Type}
+
+/-- For every engine, every world and every state: `Shutdown()` starts its engine calls with a budget of one second and no
+stale readiness; if the first `SSL_shutdown` reports the exchange as complete nothing else happens; otherwise, and unless
+an exception ends it, it performs `reads` calls of `SSL_read` (and nothing else that the engine-call log records) with
+`1 ≤ reads ≤ handshakeStepsMax`, and it stops reading before the round limit only when the newest `SSL_read` delivered
+NOTHING (end of stream, or a failure `HandleResult` gives up on: budget used up, nothing more arrived) - every delivery is
+followed by another read. -/
+theorem shutdown_reads_before_close (C : Cfg) (hC : 0 < C.stepsMax) (W : World ω) (E : Engine σ) (s : St σ ω) :
+    (shutdownPrep s).g.remainingTime = 1000 ∧ (shutdownPrep s).g.isReadable = false ∧ (shutdownPrep s).g.isWritable = false ∧
+    (∀ ans s1, shutCall W E (shutdownPrep s) = (.ok ans, s1) →
+      (ans.shutDone = true → tlsShutdown C W E s = (.ok (), s1)) ∧
+      (ans.shutDone = false → (tlsShutdown C W E s).1 = .ok () →
+        ∃ reads : List EngCall, (tlsShutdown C W E s).2.g.engCalls = reads ++ s.g.engCalls ∧
+          reads ≠ [] ∧ reads.length ≤ C.stepsMax ∧ (∀ c ∈ reads, c.isRead = true ∧ c.arg = []) ∧
+          (reads.length < C.stepsMax → ∃ c rest, reads = c :: rest ∧ c.ans.isDone = false))) := by
+  refine ⟨rfl, rfl, rfl, ?_⟩
+  intro ans s1 h1
+  have hk : s1.g.engCalls = s.g.engCalls := by
+    have := shutCall_keeps (W := W) E (shutdownPrep s)
+    rw [h1] at this
+    exact this
+  constructor
+  · intro hd
+    simp [tlsShutdown, h1, hd]
+  · intro hd hok
+    simp only [tlsShutdown, h1, hd] at hok ⊢
+    obtain ⟨reads, e1, e2, e3, e4, e5⟩ := drainLoop_drains (W := W) E C.stepsMax s1 hok
+    exact ⟨reads, by rw [← hk]; simpa using e1, e4 hC, e2, e3, e5⟩
+
+/-- the hypotheses are met, and the drain is real: an engine whose `SSL_shutdown` fails (the alert cannot be written)
+and that holds two records of unread input has BOTH read before the end of stream is seen - three `SSL_read` calls. -/
+example :
+    let E : Engine Nat :=
+      { sslRead := fun n _ => if n = 0 then .ret .zeroReturn [] 0 else .ret (.done 1) [7] (n - 1),
+        sslWrite := fun n _ => .ret .sslErr [] n,
+        initFinished := fun _ => true,
+        sslShutdown := fun n => .ret .sslErr [] n }
+    let W : World Unit := { now := fun _ => 0, wait := fun w _ _ => (false, w), send := fun w _ => (.fail 32, w),
+                            recv := fun w _ => (.fail 104, w) }
+    let s : St Nat Unit := { g := {}, e := 2, w := () }
+    (tlsShutdown Cfg.current W E s).1 = .ok () ∧ (tlsShutdown Cfg.current W E s).2.e = 0 ∧
+    ((tlsShutdown Cfg.current W E s).2.g.engCalls.map (·.ans)) = [.zeroReturn, .done 1, .done 1] := by
+  decide
+
+end SockModel.Tls
